@@ -44,7 +44,8 @@ PROBES = ['file_template_munged_to_other_file',
           'munge_with_new_defaults', 'generated_program_family',
           'string_syntax_family', 'return_value_not_text',
           'render_raised_same_as_fresh', 'restart_of_uncooked_template',
-          'munge_raced_with_a_render', 'munge_blocked_on_the_compile_lock']
+          'munge_raced_with_a_render', 'munge_blocked_on_the_compile_lock',
+          'source_that_does_not_compile']
 RULE = ('histories of 1-12 operations on one template object of class HTML, '
         'String, HTMLFile or File; sources are either compositions of '
         'hand-written fragments (sort / sort_expr / reverse_expr / batching / '
@@ -286,6 +287,9 @@ FRAGS = [
     # 28 tags that render nothing, between literal text
     'pre<dtml-comment>hidden <dtml-var x></dtml-comment>mid<dtml-call hook>'
     'post:<dtml-var x>',
+    # 29 an exception object kept in the template's defaults (shared by
+    # every render) whose argument takes its time to turn into text
+    'E:<dtml-var shexc missing="-">;',
     # 26 a sort_expr that may give no key at all, with reverse
     '<dtml-in seq sort_expr="sk" reverse><dtml-var a>;</dtml-in>|'
     '<dtml-in pairs sort_expr="sk3" reverse_expr="rv">'
@@ -490,6 +494,18 @@ def gen_program(r):
             'names': sorted(set(E.all_sites(body)))}
 
 
+# sources that do not compile: [dtml syntax, %(..)s syntax]; the first two
+# are rejected by the parser, the others by the Python compiler (SyntaxError)
+BAD_SUFFIXES = [
+    ['<dtml-if x>', '%(if x)['],
+    ['</dtml-in>', '%(in x)]'],
+    ['<dtml-var expr="1 +">', '%(var expr="1 +")s'],
+    ['<dtml-in seq sort_expr="1 +"></dtml-in>',
+     '%(in seq sort_expr="1 +")[%(in)]'],
+    ['<dtml-if expr="(">x</dtml-if>', '%(if expr="(")[x%(if)]'],
+]
+
+
 def gen_case(seed, tier):
     r = core.stream(seed, 'c17')
     cls = r.choice(CLASSES)
@@ -547,6 +563,8 @@ def gen_case(seed, tier):
             'inputs': inputs, 'ops': ops, 'start': 0,
             'encoding': r.choice([None, None, 'utf-8', 'latin-1']),
             'via_mapping': core.stream(seed, 'c17map').random() < 0.3,
+            'bad_suffix': core.stream(seed, 'c17bad').choice(BAD_SUFFIXES)
+            if core.stream(seed, 'c17badp').random() < 0.03 else None,
             'defaults': r.choice([{'dflt': 'D'}, {'dflt': 'D', 'c': 1}, {}]),
             'with_sub': r.random() < 0.6}
 
@@ -562,6 +580,9 @@ def src_text(case, j):
     s = case['sources'][j]['src']
     if case['cls'] in ('String', 'File') and case['family'] == 'hand':
         s = to_string_syntax(s)
+    if case.get('bad_suffix'):
+        s += case['bad_suffix'][0 if case['cls'] in ('HTML', 'HTMLFile')
+                                else 1]
     return s + ('<!-- %s -->' % MARK if case['cls'] in ('HTMLFile', 'File')
                 else '')
 
@@ -577,7 +598,9 @@ def construct(case, state, fs):
         # the defaults come as the constructor's mapping argument
         m, d = d, {}
     if case['cls'] in ('HTMLFile', 'File'):
-        t = cls(state.get('fname', FNAME), m, **d)
+        # (re-editing a file template to another file does not rename it:
+        # the name it was created with stays in its error messages)
+        t = cls(state.get('fname', FNAME), m, __name__=FNAME, **d)
     elif state['encoding']:
         t = cls(state['src'], m, encoding=state['encoding'], **d)
     else:
@@ -689,6 +712,13 @@ def run_case(case):
         detail['class'] = case['cls']
         violations.append({'rule': rule, 'key': key, 'detail': detail})
 
+    tolerated = (OSError, FileNotFoundError)
+    if case.get('bad_suffix'):
+        # a source that does not compile: every operation that compiles
+        # fails, the same way every time
+        from DocumentTemplate.DT_Util import ParseError
+        tolerated += (ParseError, SyntaxError)
+        probe('source_that_does_not_compile')
     fs = FS({FNAME: src_text(case, case['start']),
              FNAME2: src_text(case, (case['start'] + 1) % len(
                  case['sources']))} if is_file else {})
@@ -739,7 +769,9 @@ def run_case(case):
         dg.update(repr((step, got)).encode())
         if will_cook:
             cooked_ok = not (got[0] == 'raise' and got[1] in (
-                'OSError', 'FileNotFoundError'))
+                'OSError', 'FileNotFoundError') + ((
+                    'ParseError', 'SyntaxError') if case.get('bad_suffix')
+                    else ()))
             note_cook(cooked_ok)
             if not cooked_ok:
                 state['failed_cook'] = got[1]
@@ -864,7 +896,7 @@ def run_case(case):
             try:
                 t.cook()
                 note_cook(True)
-            except (OSError, FileNotFoundError):
+            except tolerated:
                 note_cook(False)
             since.add('cook')
         elif k == 'munge':
@@ -885,10 +917,11 @@ def run_case(case):
                         t.munge(src_text(case, j), dict(newd))
                     else:
                         t.munge(src_text(case, j))
-                    state['src'], state['j'] = src_text(case, j), j
                 ok = True
-            except (OSError, FileNotFoundError):
+            except tolerated:
                 ok = False
+            if not is_file:
+                state['src'], state['j'] = src_text(case, j), j
             if newd is not None:
                 state['defaults'] = dict(newd)
                 state['vars'] = {}
@@ -929,7 +962,7 @@ def run_case(case):
                 viol('race', 'race:' + sim.abort,
                      {'segments': segs, 'what': 'render || munge'}, step)
             out = sim.th[1].outcome
-            if out and out[0] == 'exc':
+            if out and out[0] == 'exc' and not isinstance(out[1], tolerated):
                 viol('race', 'race:munge-raised',
                      {'segments': segs, 'error': repr(out[1])}, step)
             state['src'], state['j'] = newsrc, op[2]
@@ -948,7 +981,7 @@ def run_case(case):
             try:
                 t.munge(new)
                 note_cook(True)
-            except (OSError, FileNotFoundError):
+            except tolerated:
                 pass
             since.add('munge')
             probe('file_template_munged_to_other_file')
